@@ -1,6 +1,6 @@
 (* What acceptance by the (repaired) verifier implies: C01, C02, C03. *)
 From Coq Require Import ZArith List Lia Bool.
-From Gabi Require Import Val ModArith GoSem ParamsDef ZkProof Keys Bytes Sha256 HashTool RangeProof NonRev Core CoreTotal.
+From Gabi Require Import Val ModArith GoSem ParamsDef ZkProof Keys Bytes Sha256 HashTool RangeProof NonRev Core CoreTotal RangeSound.
 From GabiGen Require Import Consts.
 Import ListNotations.
 Open Scope Z_scope.
@@ -349,4 +349,28 @@ Proof.
     intros Hin. unfold keys in Hin. apply in_map_iff in Hin as [[i a] [Hi Hin]]. cbn in Hi. subst.
     rewrite forallb_forall in Hm. specialize (Hm _ Hin). cbn [fst snd] in Hm. apply andb_prop in Hm as [_ Hr].
     unfold in_range_R in Hr. apply andb_prop in Hr as [Hr _]. apply Z.leb_le in Hr. lia.
+Qed.
+
+(* ---------- C12 ---------- *)
+Theorem carried_range_proofs_on_hidden_indices_lem :
+  forall pk p, proofD_validate pk p = true ->
+  forall i l, In (i, l) (pd_rp p) -> In i (keys (pd_AResp p)) /\ ~ In None l /\
+                                     0 <= i < Z.of_nat (length (pk_R pk)).
+Proof.
+  intros pk p Hv i l Hin. destruct (proofD_validate_spec pk p Hv) as (HR & _ & HP & _).
+  destruct (HP i l Hin) as [Hk Hn]. split; [exact Hk|]. split; [exact Hn|].
+  unfold keys in Hk. apply in_map_iff in Hk as [[j r] [Hj Hjr]]. cbn in Hj. subst j.
+  now destruct (HR i r Hjr).
+Qed.
+
+Lemma c12_example_lem :
+  let p := mkRp [Some 1; Some 1; Some 1] [] [] None None 8 (-1) 4 (Some 10) in
+  accepted_descriptor p 10 /\ holds (rp_Sign p) (rp_A p) 10 2 /\
+  proves_statement p (-1) 1 2 = true /\ proves_statement p (-1) 4611686018427387905 3 = false.
+Proof.
+  cbn. split; [|split; [|split]].
+  - unfold accepted_descriptor. cbn. repeat split; auto; unfold max_int64; lia.
+  - unfold holds. lia.
+  - reflexivity.
+  - reflexivity.
 Qed.
